@@ -18,6 +18,7 @@ structure DSt where
       folds completed chunks of 256 tasks into these two bits instead of keeping 10^5 list entries.) -/
   once : Bool := true
   dup : Bool := false
+  lastInit : Nat := 0        -- thread count of the last `init` line of the case (0 = none yet)
 
 def foldAway (d : DSt) : DSt :=
   { d with ss := { tasks := [], uaf := d.ss.uaf },
@@ -49,12 +50,16 @@ def atask (seq : String) : String :=
 def stepD (d : DSt) : List String → DSt × String
   | ["init", n] =>
     match n.toNat? with
-    | some n => ({ d with workers := n - 1 }, "ok")
+    | some n => ({ d with workers := n - 1, lastInit := n }, "ok")
     | none => (d, "bad-op")
   | ["sched", n, _kind, nest] =>
     match n.toNat?, nest.toNat? with
     | some n, some k => (schedMany (SCfg.reference d.workers) d (n * (1 + k)), "ok")
     | _, _ => (d, "bad-op")
+  | ["dep", n] =>
+    -- a parent that waits for the child it scheduled: with >= 2 workers besides the caller an idle worker's pop of the
+    -- queued child is enabled (schedule_pop_enabled), so the child runs while the parent is still busy
+    (d, if d.lastInit ≥ 3 then "done=" ++ n ++ " child-not-picked-up=0" else "skip")
   | ["wait_all"] =>
     waitAll (SCfg.reference d.workers) d
   | ["async", _kind, v] =>
